@@ -750,6 +750,70 @@ theorem services_do_not_share (ops : List Op) (i j key c : Nat) (sc : Step) (hij
 theorem arrive_line_key (c : Nat) (kv : Kv) :
     ∃ sc cp, arriveOp c kv = .arrive c (svcKey (kv.nat "svc" 0) (kv.nat "key" 0)) sc cp := ⟨_, _, rfl⟩
 
+/-! ## distinct keys are independent — whatever their hashes
+
+The in-flight table is keyed by the KEY (the key type's `Eq`), not by a digest of it. The model has no notion of a
+hash at all: its table is a `Nat`-indexed association list; so the statements below hold for EVERY function `h`
+standing for the key type's `Hash` (in particular a coarse one: `h a = h b` for `a ≠ b` — the harness's
+`khash=<m>` / `hmod=<m>` key types hash only `key mod m`). seeded/C11-w7m1 keys the table by a 64-bit digest. -/
+
+/-- **A step for one key leaves every other key alone**: if the operation is not about `key'` (it is the arrival of
+a request for another key, the poll / drop / completion / panic of a caller of another key, time passing, the handles
+being dropped), the table entry of `key'` and the numbers of inner calls started and ended for `key'` are after the
+step what they were before. -/
+theorem distinct_keys_independent (ops : List Op) (op : Op) (key' : Nat)
+    (hop : opKey (run ops) op ≠ some key') :
+    reg (stepS (run ops) op) key' = reg (run ops) key' ∧
+    traffic key' (stepS (run ops) op).log = traffic key' (run ops).log :=
+  ⟨step_other_key _ op _ hop, step_other_key_traffic _ op _ hop⟩
+
+/-- **Keys that collide in their hash do not share a call.** `h` is any hash function; `a` is in flight (led by
+`l`), `b ≠ a` has the same hash and is free. A request `c` for `b` leads a fresh inner call of its own in the step
+of its arrival — it does not become a waiter of `l` —, and `a`'s entry and traffic are untouched by it. -/
+theorem colliding_keys_do_not_share (h : Nat → Nat) (ops : List Op) (a b l c : Nat) (sc : Step)
+    (_hcol : h a = h b) (hab : a ≠ b)
+    (hs : (run ops).svcGone = false) (hc : lookup (run ops).role c = none)
+    (_ha : reg (run ops) a = some l) (hfree : reg (run ops) b = none) :
+    let s' := stepS (run ops) (.arrive c b sc false)
+    s'.log = (run ops).log ++ [.innerCall c b (run ops).serial] ∧
+    LiveLeader s' c b (run ops).serial ∧
+    reg s' a = reg (run ops) a ∧ traffic a s'.log = traffic a (run ops).log := by
+  intro s'
+  obtain ⟨h1, h2⟩ := fresh_call_when_free ops c b sc hs hc hfree
+  refine ⟨h1, h2, ?_⟩
+  refine distinct_keys_independent ops _ a ?_
+  show some b ≠ some a
+  intro e
+  exact hab (Option.some.inj e).symm
+
+/-- **… and the end of one does not retire the other**: whatever happens to a caller of key `a` (its leader
+completes, panics, is dropped; a waiter of it is polled or dropped), a key `b ≠ a` — equal hash or not — that is
+registered to leader `l` stays registered to `l`. -/
+theorem colliding_key_survives_other_keys_end (h : Nat → Nat) (ops : List Op) (a b l c : Nat) (r : Role)
+    (_hcol : h a = h b) (hab : a ≠ b) (hr : lookup (run ops).role c = some r)
+    (hk : (match r with | .leader key _ => key | .waiter key _ => key | .panicked key => key) = a)
+    (hb : reg (run ops) b = some l) :
+    reg (stepS (run ops) (.poll c)) b = some l ∧ reg (stepS (run ops) (.drop c)) b = some l := by
+  subst hk
+  have hne : ∀ op a', a' ≠ b → opKey (run ops) op = some a' → opKey (run ops) op ≠ some b := by
+    intro op a' hab' e1 e2
+    rw [e1] at e2
+    exact hab' (Option.some.inj e2)
+  have hp := hne (.poll c) _ hab (by cases r <;> simp [opKey, hr])
+  have hd := hne (.drop c) _ hab (by cases r <;> simp [opKey, hr])
+  exact ⟨by rw [(distinct_keys_independent ops _ b hp).1]; exact hb,
+         by rw [(distinct_keys_independent ops _ b hd).1]; exact hb⟩
+
+/-- the seeded situation (keys 7 and 9, think `h = (· % 2)`): 7 in flight when 9 arrives — 9 leads call 1 and gets
+its own error, 7's waiter gets `ok:0`; 7's completion leaves 9 registered (request 5 joins call 1) -/
+example :
+    (7 % 2 = 9 % 2) ∧
+    (run [.arrive 1 7 ⟨10, .ok⟩ false, .arrive 2 9 ⟨20, .err 1⟩ false, .arrive 3 7 ⟨0, .ok⟩ false, .adv 10, .poll 1,
+          .poll 3, .arrive 5 9 ⟨0, .ok⟩ false, .adv 10, .poll 2, .poll 5]).log
+      = [.innerCall 1 7 0, .innerCall 2 9 1, .innerDone 1 7 0 .ok, .result 1 (.ok 0), .result 3 (.ok 0),
+         .innerDone 2 9 1 (.err 1), .result 2 (.inner 1 1), .result 5 (.inner 1 1)] ∧
+    reg (run [.arrive 1 7 ⟨10, .ok⟩ false, .arrive 2 9 ⟨20, .err 1⟩ false, .adv 10, .poll 1]) 9 = some 2 := by decide
+
 /-- two requests for key 7 coalesce (one inner call, serial 0, both get `ok:0`), key 8 runs
 its own call concurrently and fails: its waiter gets the same error with the same serial 1 -/
 example :
